@@ -3,6 +3,7 @@
 package rib
 
 import (
+	"encoding/json"
 	"fmt"
 	"math/rand"
 	"os"
@@ -81,6 +82,9 @@ func vfRandAfts(r *rand.Rand) *aftpb.Afts {
 		e := &aftpb.Afts_NextHopKey{Index: uint64(r.Intn(4))}
 		if r.Intn(5) != 0 {
 			e.NextHop = &aftpb.Afts_NextHop{NetworkInstance: s()}
+			if r.Intn(3) == 0 {
+				e.NextHop.PopTopLabel = &wpb.BoolValue{Value: r.Intn(2) == 0}
+			}
 		}
 		a.NextHop = append(a.NextHop, e)
 	}
@@ -198,4 +202,17 @@ func TestVfModelAgreement(t *testing.T) {
 		agree++
 	}
 	fmt.Printf("VFAGREE %d/%d\n", agree, n)
+}
+
+// TestVfModelCalibrate measures facts about the real conversion functions that the models
+// take as parameters, and writes them to $VF_CALIB_OUT.
+func TestVfModelCalibrate(t *testing.T) {
+	facts := vfMeasureCalib()
+	b, _ := json.Marshal(facts)
+	if out := os.Getenv("VF_CALIB_OUT"); out != "" {
+		if err := os.WriteFile(out, b, 0o644); err != nil {
+			t.Fatal(err)
+		}
+	}
+	t.Logf("VFCALIB %s", b)
 }
